@@ -175,6 +175,7 @@ func runCheck(prop, tierName, repoDir, verifDir string, workers int, only string
 		return 2
 	}
 	known := loadKnown(verifDir)
+	loadBounds(verifDir)
 	p, err := loadProgram(repoDir, verifDir)
 	if err != nil {
 		fmt.Fprintln(os.Stderr, "gosym: cannot load the repository:", err)
